@@ -8,6 +8,7 @@ int cbcount;
 
 void create() { seteuid(getuid()); }
 mixed cb(mixed a, mixed b) { cbcount++; return a; }
+mixed vcb(mixed *a...) { return sizeof(a); }
 string bigstr(int n) { string s = "0123456789abcdef"; while (strlen(s) < n) s += s; return s[0..n - 1]; }
 
 void setup() {
